@@ -12,8 +12,10 @@ C06 helper lemmas: what the executable sparse-inertia model (`MjProof/Model/Iner
   * `fullM_get`    — `mju_sym2dense` fills exactly `entry`                          (pattern: `LowerOk`)
   * `fullM_symm`   — `mju_sym2dense` output is symmetric for EVERY input (no pattern hypothesis)
   * `dot4_real`    — the 4-accumulator `mju_dotSparse` is the plain sum over ℝ
-  * `solveT_spec`, `solveL_spec`, `solveLD_spec` — the three passes of `mj_solveLD` are the triangular solves
+  * `solveT_aux`, `solveL_spec`, `solveLD_spec` — the three passes of `mj_solveLD` are the triangular solves
     `Lᵀ z = x`, `w = D⁻¹ z`, `L y = w`
+  * `factorRow_spec`, `factor_aux`, `factorI_spec` — `mj_factorI` on a tree pattern: after the rows `≥ k` have been
+    processed, `M = Σ_{r ≥ k} d_r l_r l_rᵀ + (remaining leading block)`; at the end `LᵀDL = M`, `qLDiagInv = 1/D`
 -/
 set_option linter.unusedSimpArgs false
 set_option linter.unusedVariables false
@@ -487,5 +489,477 @@ theorem solveLD_spec (L : SymCsr ℝ n) (hL : LowerOk L) (dinv : Vector ℝ n) (
     congr 1
     simp [Finset.sum_ite_eq]
   rw [hsplit]; exact h1
+
+/-! ### `mj_factorI` -/
+
+theorem addToScl_cols (off : List (Fin n × ℝ)) (src : List ℝ) (scl : ℝ) :
+    (addToScl off src scl).map (·.1) = off.map (·.1) := by
+  induction off generalizing src with
+  | nil => simp [addToScl]
+  | cons e off ih =>
+    obtain ⟨c, a⟩ := e
+    cases src with
+    | nil => simp [addToScl]
+    | cons b src => simp [addToScl, ih]
+
+theorem addToScl_colSum (off : List (Fin n × ℝ)) (src : List ℝ) (scl : ℝ) (b : Fin n) :
+    colSum (addToScl off src scl) b =
+      colSum off b + scl * (List.zipWith (fun (e : Fin n × ℝ) s => if e.1 = b then s else 0) off src).sum := by
+  induction off generalizing src with
+  | nil => simp [addToScl, colSum]
+  | cons e off ih =>
+    obtain ⟨c, a⟩ := e
+    cases src with
+    | nil => simp [addToScl]
+    | cons s src =>
+      simp only [addToScl, colSum_cons, List.zipWith_cons_cons, List.sum_cons, ih]
+      by_cases h : c = b
+      · simp [h]; ring
+      · simp [h]
+
+/-- the positional sum against the values of a row whose leading columns are the columns of `off` -/
+theorem zip_prefix_sum (off offk : List (Fin n × ℝ)) (tail : List ℝ) (b : Fin n)
+    (hc : off.map (·.1) = (offk.take off.length).map (·.1)) (hlen : off.length ≤ offk.length) :
+    (List.zipWith (fun (e : Fin n × ℝ) s => if e.1 = b then s else 0) off (offk.map (·.2) ++ tail)).sum
+      = colSum (offk.take off.length) b := by
+  induction off generalizing offk with
+  | nil => simp [colSum]
+  | cons e off ih =>
+    cases offk with
+    | nil => simp at hlen
+    | cons ek offk =>
+      simp only [List.length_cons, List.take_succ_cons, List.map_cons, List.cons.injEq] at hc
+      simp only [List.length_cons, Nat.add_le_add_iff_right] at hlen
+      simp only [List.map_cons, List.cons_append, List.zipWith_cons_cons, List.sum_cons, List.length_cons,
+        List.take_succ_cons, colSum_cons]
+      rw [ih offk hc.2 hlen, hc.1]
+
+/-- effect of the inner loop of `factorRow` on the rows: every row whose index is a column of the list gets `f`
+applied once (indices are distinct) -/
+theorem foldr_set_rows (f : Fin n × ℝ → Row ℝ n → Row ℝ n) :
+    ∀ (es : List (Fin n × ℝ)) (M : SymCsr ℝ n), (es.map (·.1)).Nodup → ∀ i : Fin n,
+      (es.foldr (fun e M => M.set e.1 (f e M[e.1])) M)[i] =
+        match es.find? (fun e => e.1 = i) with
+        | some e => f e M[i]
+        | none => M[i] := by
+  intro es
+  induction es with
+  | nil => intro M _ i; simp
+  | cons e es ih =>
+    intro M hnd i
+    simp only [List.map_cons, List.nodup_cons] at hnd
+    simp only [List.foldr_cons]
+    rw [get_set]
+    by_cases h : e.1 = i
+    · subst h
+      simp only [if_true, List.find?_cons_of_pos, decide_true]
+      rw [ih M hnd.2 e.1]
+      have : es.find? (fun e' => e'.1 = e.1) = none := by
+        rw [List.find?_eq_none]
+        intro x hx hx'
+        simp only [decide_eq_true_eq] at hx'
+        exact hnd.1 (by rw [← hx']; exact List.mem_map_of_mem hx)
+      rw [this]
+    · simp only [if_neg h]
+      rw [ih M hnd.2 i]
+      have : (e :: es).find? (fun e' => e'.1 = i) = es.find? (fun e' => e'.1 = i) := by
+        rw [List.find?_cons_of_neg]; simpa using h
+      rw [this]
+
+/-- decoded tree-pattern hypothesis -/
+def TreeOk (M : SymCsr ℝ n) : Prop :=
+  ∀ (k : Fin n) (t : Nat) (c : Fin n), M[k].cols[t]? = some c → M[c].cols = M[k].cols.take t
+
+theorem treeOk_iff (M : SymCsr ℝ n) : treeOk M = true ↔ TreeOk M := by
+  simp only [treeOk, List.all_eq_true, List.mem_finRange, forall_const, List.mem_range, TreeOk]
+  constructor
+  · intro h k t c hc
+    have ht : t < M[k].cols.length := by
+      by_contra hlt
+      rw [List.getElem?_eq_none (by omega)] at hc
+      exact absurd hc (by simp)
+    have := h k t ht
+    rw [hc] at this
+    simpa using this
+  · intro h k t ht
+    have hsome : M[k].cols[t]? = some (M[k].cols[t]) := List.getElem?_eq_getElem ht
+    rw [hsome]
+    simpa using h k t _ hsome
+
+/-- in a strictly increasing slot list the first `t` slots are exactly the columns below the `t`-th one -/
+theorem colSum_take_sorted : ∀ (off : List (Fin n × ℝ)) (t : Nat) (c : Fin n) (b : Fin n),
+    (off.map (·.1)).Pairwise (· < ·) → (off.map (·.1))[t]? = some c →
+    colSum (off.take t) b = if b < c then colSum off b else 0 := by
+  intro off
+  induction off with
+  | nil => intro t c b _ h; simp at h
+  | cons e off ih =>
+    intro t c b hs hc
+    rw [List.map_cons, List.pairwise_cons] at hs
+    cases t with
+    | zero =>
+      simp only [List.map_cons, List.getElem?_cons_zero, Option.some.injEq] at hc
+      subst hc
+      simp only [List.take_zero, colSum, List.map_nil, List.sum_nil]
+      split
+      · rename_i hb
+        -- b < e.1 : b is not a column at all
+        have hnot : b ∉ (e :: off).map (·.1) := by
+          intro hm
+          rcases List.mem_cons.1 hm with h | h
+          · exact absurd (h ▸ hb) (lt_irrefl _)
+          · exact absurd (lt_trans (hs.1 b h) hb) (lt_irrefl _)
+        exact (colSum_eq_zero_of_not_mem _ _ hnot).symm
+      · rfl
+    | succ t =>
+      simp only [List.map_cons, List.getElem?_cons_succ] at hc
+      simp only [List.take_succ_cons, colSum_cons]
+      rw [ih t c b hs.2 hc]
+      have hec : e.1 < c := hs.1 c (List.mem_of_getElem? hc)
+      by_cases hb : b < c
+      · simp [hb]
+      · simp only [hb, if_false, add_zero]
+        have : e.1 ≠ b := fun h => hb (h ▸ hec)
+        simp [this]
+
+theorem colSum_of_getElem (off : List (Fin n × ℝ)) (t : Nat) (e : Fin n × ℝ)
+    (hnd : (off.map (·.1)).Nodup) (he : off[t]? = some e) : colSum off e.1 = e.2 := by
+  induction off generalizing t with
+  | nil => simp at he
+  | cons a off ih =>
+    simp only [List.map_cons, List.nodup_cons] at hnd
+    cases t with
+    | zero =>
+      simp only [List.getElem?_cons_zero, Option.some.injEq] at he
+      subst he
+      rw [colSum_cons, colSum_eq_zero_of_not_mem _ _ hnd.1]; simp
+    | succ t =>
+      simp only [List.getElem?_cons_succ] at he
+      rw [colSum_cons, ih t hnd.2 he]
+      have : a.1 ≠ e.1 := fun h => hnd.1 (h ▸ List.mem_map_of_mem (List.mem_of_getElem? he))
+      simp [this]
+
+/-- what `mju_addToScl(row c, row k, scl, rownnz[c])` does to row `c = colind[t]` of row `k` on a tree pattern -/
+theorem addPrefix_spec (rc rk : Row ℝ n) (t : Nat) (e : Fin n × ℝ) (scl : ℝ)
+    (hsort : rk.cols.Pairwise (· < ·)) (he : rk.off[t]? = some e) (hpre : rc.cols = rk.cols.take t) :
+    (rc.addPrefix rk.vals scl).cols = rc.cols ∧ (rc.addPrefix rk.vals scl).dcol = rc.dcol ∧
+    (∀ b, colSum (rc.addPrefix rk.vals scl).off b = colSum rc.off b + scl * (if b < e.1 then colSum rk.off b else 0)) ∧
+    (rc.addPrefix rk.vals scl).d = rc.d + e.2 * scl := by
+  have htlen : t < rk.off.length := by
+    by_contra h
+    rw [List.getElem?_eq_none (by omega)] at he
+    exact absurd he (by simp)
+  have hlen : rc.off.length = t := by
+    have := congrArg List.length hpre
+    simp only [Row.cols, List.length_map, List.length_take] at this
+    omega
+  have hdrop : rk.vals.drop rc.off.length = e.2 :: (rk.vals.drop (t + 1)) := by
+    rw [hlen]
+    have h1 : rk.vals[t]? = some e.2 := by
+      simp only [Row.vals]
+      rw [List.getElem?_append_left (by simpa using htlen), List.getElem?_map, he]; rfl
+    have ht' : t < rk.vals.length := by simp [Row.vals]; omega
+    rw [List.drop_eq_getElem_cons ht']
+    congr 1
+    have := List.getElem?_eq_getElem ht'
+    rw [this] at h1
+    exact Option.some.inj h1
+  have hoff : (rc.addPrefix rk.vals scl).off = addToScl rc.off rk.vals scl := by
+    unfold Row.addPrefix; rw [hdrop]
+  have hd : (rc.addPrefix rk.vals scl).d = rc.d + e.2 * scl := by
+    unfold Row.addPrefix; rw [hdrop]
+  have hdc : (rc.addPrefix rk.vals scl).dcol = rc.dcol := by
+    unfold Row.addPrefix; rw [hdrop]
+  refine ⟨?_, hdc, ?_, hd⟩
+  · simp only [Row.cols, hoff, addToScl_cols]
+  · intro b
+    rw [hoff, addToScl_colSum]
+    congr 1; congr 1
+    have hc' : rc.off.map (·.1) = (rk.off.take rc.off.length).map (·.1) := by
+      have := hpre
+      simp only [Row.cols] at this
+      rw [this, hlen, List.map_take]
+    rw [show rk.vals = rk.off.map (·.2) ++ [rk.d] from rfl, zip_prefix_sum rc.off rk.off [rk.d] b hc' (by omega), hlen]
+    have hct : (rk.off.map (·.1))[t]? = some e.1 := by rw [List.getElem?_map, he]; rfl
+    exact colSum_take_sorted rk.off t e.1 b hsort hct
+
+
+/-- same sparsity pattern -/
+def SamePat (A B : SymCsr ℝ n) : Prop := ∀ i : Fin n, A[i].cols = B[i].cols ∧ A[i].dcol = B[i].dcol
+
+theorem SamePat.lowerOk {A B : SymCsr ℝ n} (h : SamePat A B) (hB : LowerOk B) : LowerOk A := by
+  intro i; rw [(h i).1, (h i).2]; exact hB i
+
+theorem SamePat.treeOk {A B : SymCsr ℝ n} (h : SamePat A B) (hB : TreeOk B) : TreeOk A := by
+  intro k t c hc
+  rw [(h k).1] at hc ⊢
+  rw [(h c).1]; exact hB k t c hc
+
+theorem colSum_map_scale (off : List (Fin n × ℝ)) (s : ℝ) (b : Fin n) :
+    colSum (off.map (fun e => (e.1, e.2 * s))) b = colSum off b * s := by
+  induction off with
+  | nil => simp [colSum]
+  | cons e off ih =>
+    simp only [List.map_cons, colSum_cons, ih]
+    by_cases h : e.1 = b
+    · simp [h]; ring
+    · simp [h]
+
+/-- the effect of one iteration of `mj_factorI` (row `k`) on a tree pattern, in terms of `x = row k` and `d = M[k,k]` -/
+theorem factorRow_spec (k : Fin n) (M : SymCsr ℝ n) (dinv : Vector ℝ n) (hL : LowerOk M) (hT : TreeOk M) :
+    let S2 := factorRow k (M, dinv)
+    let d := M[k].d
+    let x := fun i => colSum M[k].off i
+    SamePat S2.1 M ∧
+    (S2.1[k].d = d ∧ ∀ b, colSum S2.1[k].off b = x b * (1 / d)) ∧
+    (∀ i, i ≠ k → S2.1[i].d = M[i].d - x i * (1 / d) * x i ∧
+       ∀ b, colSum S2.1[i].off b = colSum M[i].off b - x i * (1 / d) * (if b < i then x b else 0)) ∧
+    S2.2[k] = 1 / d ∧ ∀ i, i ≠ k → S2.2[i] = dinv[i] := by
+  intro S2 d x
+  obtain ⟨hk1, hk2, hk3⟩ := hL k
+  have hnd : (M[k].off.map (·.1)).Nodup := (hk2.imp (fun h => ne_of_lt h))
+  -- rows after the inner loop
+  set f : Fin n × ℝ → Row ℝ n → Row ℝ n := fun e r => r.addPrefix M[k].vals ((-e.2) * (one / M[k].d)) with hf
+  set M1 := M[k].off.foldr (fun e M' => M'.set e.1 (f e M'[e.1])) M with hM1
+  have hrows := foldr_set_rows f M[k].off M hnd
+  have hS2 : S2 = (M1.set k { M[k] with off := M[k].off.map (fun e => (e.1, e.2 * (one / M[k].d))) },
+      dinv.set k (one / M[k].d)) := rfl
+  have hone : (one : ℝ) / M[k].d = 1 / d := by
+    show (one : ℝ) / M[k].d = 1 / M[k].d
+    rw [one_real]
+  -- row i ≠ k of the result
+  have hrow : ∀ i, i ≠ k → S2.1[i] = M1[i] := by
+    intro i hi
+    rw [hS2]; simp only []
+    rw [get_set, if_neg (Ne.symm hi)]
+  -- description of M1[i]
+  have hM1row : ∀ i, (M1[i].cols = M[i].cols ∧ M1[i].dcol = M[i].dcol) ∧
+      M1[i].d = M[i].d - x i * (1 / d) * x i ∧
+      ∀ b, colSum M1[i].off b = colSum M[i].off b - x i * (1 / d) * (if b < i then x b else 0) := by
+    intro i
+    rw [hM1, hrows i]
+    cases hfind : M[k].off.find? (fun e => e.1 = i) with
+    | none =>
+      have hni : i ∉ M[k].off.map (·.1) := by
+        intro hm
+        obtain ⟨e, he, hei⟩ := List.mem_map.1 hm
+        have := List.find?_eq_none.1 hfind e he
+        simp [hei] at this
+      have hx : x i = 0 := colSum_eq_zero_of_not_mem _ _ hni
+      simp [hx]
+    | some e =>
+      have hem : e ∈ M[k].off := List.mem_of_find?_eq_some hfind
+      have hei : e.1 = i := by simpa using List.find?_some hfind
+      obtain ⟨t, ht⟩ := List.getElem?_of_mem hem
+      have hct : M[k].cols[t]? = some i := by
+        simp only [Row.cols, List.getElem?_map, ht, Option.map_some, hei]
+      have hpre := hT k t i hct
+      have hxi : x i = e.2 := by rw [← hei]; exact colSum_of_getElem M[k].off t e hnd ht
+      obtain ⟨c1, c2, c3, c4⟩ := addPrefix_spec M[i] M[k] t e ((-e.2) * (one / M[k].d)) hk2 ht hpre
+      simp only [hf]
+      refine ⟨⟨c1, c2⟩, ?_, ?_⟩
+      · rw [c4, hxi, hone]; ring
+      · intro b
+        rw [c3 b, hxi, hone, hei]; ring
+  refine ⟨?_, ⟨?_, ?_⟩, ?_, ?_, ?_⟩
+  · intro i
+    by_cases hi : i = k
+    · subst hi
+      rw [hS2]; simp only []
+      rw [get_set, if_pos rfl]
+      simp [Row.cols, List.map_map, Function.comp_def]
+    · rw [hrow i hi]; exact (hM1row i).1
+  · rw [hS2]; simp only []; rw [get_set, if_pos rfl]
+  · intro b
+    rw [hS2]; simp only []; rw [get_set, if_pos rfl]
+    simp only []
+    rw [colSum_map_scale, hone]
+  · intro i hi
+    rw [hrow i hi]; exact (hM1row i).2
+  · rw [hS2]; simp only []; rw [get_set, if_pos rfl, hone]
+  · intro i hi
+    rw [hS2]; simp only []; rw [get_set, if_neg (Ne.symm hi)]
+
+
+/-- the not-yet-factorised part: entries outside the processed rows / columns -/
+def act (M : SymCsr ℝ n) (done : List (Fin n)) (a b : Fin n) : ℝ :=
+  if a ∈ done ∨ b ∈ done then 0 else entry M a b
+
+/-- entries of the matrix after one step, away from row / column `k` (Schur complement update) -/
+theorem factorRow_entry (k : Fin n) (M : SymCsr ℝ n) (dinv : Vector ℝ n) (hL : LowerOk M) (hT : TreeOk M)
+    (a b : Fin n) (ha : a ≠ k) (hb : b ≠ k) :
+    entry (factorRow k (M, dinv)).1 a b =
+      entry M a b - colSum M[k].off a * (1 / M[k].d) * colSum M[k].off b := by
+  obtain ⟨_, _, h3, _, _⟩ := factorRow_spec k M dinv hL hT
+  obtain ⟨hda, hca⟩ := h3 a ha
+  obtain ⟨hdb, hcb⟩ := h3 b hb
+  unfold entry
+  rw [hca b, hcb a]
+  by_cases hab : a = b
+  · subst hab
+    simp only [if_true, lt_irrefl, if_false, hda]; ring
+  · simp only [if_neg hab]
+    rcases lt_or_gt_of_ne hab with h | h
+    · simp only [h, if_true, not_lt.mpr (le_of_lt h), if_false]; ring
+    · simp only [h, if_true, not_lt.mpr (le_of_lt h), if_false]; ring
+
+/-- upward closed list of row indices -/
+def UpClosed (l : List (Fin n)) : Prop := ∀ r ∈ l, ∀ i : Fin n, r < i → i ∈ l
+
+theorem factor_aux (M0 : SymCsr ℝ n) (z : Vector ℝ n) (hL : LowerOk M0) (hT : TreeOk M0) :
+    ∀ (l : List (Fin n)), l.Pairwise (· < ·) → UpClosed l →
+      (∀ r ∈ l, (l.foldr factorRow (M0, z)).2[r] ≠ 0) →
+      SamePat (l.foldr factorRow (M0, z)).1 M0 ∧
+      (∀ r ∈ l, (l.foldr factorRow (M0, z)).2[r] = 1 / (l.foldr factorRow (M0, z)).1[r].d ∧
+                (l.foldr factorRow (M0, z)).1[r].d ≠ 0) ∧
+      (∀ a b, entry M0 a b =
+        (l.map (fun r => (l.foldr factorRow (M0, z)).1[r].d * Lmat (l.foldr factorRow (M0, z)).1 r a *
+                          Lmat (l.foldr factorRow (M0, z)).1 r b)).sum
+          + act (l.foldr factorRow (M0, z)).1 l a b) := by
+  intro l
+  induction l with
+  | nil =>
+    intro _ _ _
+    refine ⟨fun i => ⟨rfl, rfl⟩, by simp, ?_⟩
+    intro a b; simp [act]
+  | cons k l ih =>
+    intro hs hup hnz
+    rw [List.pairwise_cons] at hs
+    have hup' : UpClosed l := by
+      intro r hr i hri
+      have := hup r (List.mem_cons_of_mem _ hr) i hri
+      rcases List.mem_cons.1 this with h | h
+      · exact absurd (lt_trans (hs.1 r hr) hri) (h ▸ lt_irrefl _)
+      · exact h
+    set S' := l.foldr factorRow (M0, z) with hS'
+    have hfold : (k :: l).foldr factorRow (M0, z) = factorRow k S' := rfl
+    rw [hfold] at hnz ⊢
+    have hS'eq : S' = (S'.1, S'.2) := rfl
+    -- previous state
+    have hkl : k ∉ l := fun h => absurd (hs.1 k h) (lt_irrefl _)
+    have spec0 := factorRow_spec k S'.1 S'.2
+    have hnz' : ∀ r ∈ l, S'.2[r] ≠ 0 := by
+      intro r hr
+      have hrk : r ≠ k := fun h => hkl (h ▸ hr)
+      -- dinv[r] is not touched by step k (the pattern hypotheses are only needed for the other clauses)
+      have : (factorRow k S').2[r] = S'.2[r] := by
+        show (S'.2.set k _)[r] = _
+        rw [get_set, if_neg (Ne.symm hrk)]
+      rw [← this]; exact hnz r (List.mem_cons_of_mem _ hr)
+    obtain ⟨ihP, ihD, ihE⟩ := ih hs.2 hup' hnz'
+    have hL' : LowerOk S'.1 := ihP.lowerOk hL
+    have hT' : TreeOk S'.1 := ihP.treeOk hT
+    obtain ⟨sP, ⟨sk1, sk2⟩, s3, s4, s5⟩ := spec0 hL' hT'
+    have hfr : factorRow k S' = factorRow k (S'.1, S'.2) := rfl
+    rw [hfr] at hnz ⊢
+    set S2 := factorRow k (S'.1, S'.2) with hS2
+    set d := S'.1[k].d with hd
+    set x := fun i => colSum S'.1[k].off i with hx
+    have hdne : d ≠ 0 := by
+      have := hnz k (List.mem_cons_self ..)
+      rw [s4] at this
+      intro h0; rw [h0] at this; simp at this
+    -- x vanishes at and above k
+    have hx0 : ∀ i, k ≤ i → x i = 0 := fun i hi =>
+      colSum_eq_zero_of_not_mem _ _ (fun hm => absurd (lt_of_le_of_lt hi ((hL' k).2.2 i hm)) (lt_irrefl _))
+    -- rows above k are untouched
+    have hrow_above : ∀ r, k < r → S2.1[r].d = S'.1[r].d ∧ ∀ b, colSum S2.1[r].off b = colSum S'.1[r].off b := by
+      intro r hr
+      obtain ⟨h1, h2⟩ := s3 r (ne_of_gt hr)
+      have : x r = 0 := hx0 r (le_of_lt hr)
+      refine ⟨by rw [h1, this]; ring, fun b => by rw [h2 b, this]; ring⟩
+    have hLmat_above : ∀ r, k < r → ∀ a, Lmat S2.1 r a = Lmat S'.1 r a := by
+      intro r hr a; unfold Lmat; rw [(hrow_above r hr).2 a]
+    have hLk : ∀ a, Lmat S2.1 k a = (if k = a then 1 else 0) + x a * (1 / d) := by
+      intro a; unfold Lmat; rw [sk2 a]
+    refine ⟨?_, ?_, ?_⟩
+    · intro i; exact ⟨((sP i).1).trans (ihP i).1, ((sP i).2).trans (ihP i).2⟩
+    · intro r hr
+      rcases List.mem_cons.1 hr with rfl | hr
+      · rw [s4, sk1]; exact ⟨rfl, hdne⟩
+      · have hrk : k < r := hs.1 r hr
+        rw [s5 r (ne_of_gt hrk), (hrow_above r hrk).1]
+        exact ihD r hr
+    · intro a b
+      rw [ihE a b]
+      simp only [List.map_cons, List.sum_cons]
+      have hsum : (l.map (fun r => S2.1[r].d * Lmat S2.1 r a * Lmat S2.1 r b)).sum
+          = (l.map (fun r => S'.1[r].d * Lmat S'.1 r a * Lmat S'.1 r b)).sum := by
+        congr 1
+        apply List.map_congr_left
+        intro r hr
+        have hrk : k < r := hs.1 r hr
+        rw [(hrow_above r hrk).1, hLmat_above r hrk, hLmat_above r hrk]
+      rw [hsum, sk1, hLk a, hLk b]
+      -- the remaining identity:  d L_ka L_kb + act₂ = act'
+      have key : d * ((if k = a then 1 else 0) + x a * (1 / d)) * ((if k = b then 1 else 0) + x b * (1 / d))
+          + act S2.1 (k :: l) a b = act S'.1 l a b := by
+        unfold act
+        by_cases hal : a ∈ l
+        · have : x a = 0 := hx0 a (le_of_lt (hs.1 a hal))
+          have hka : k ≠ a := fun h => hkl (h ▸ hal)
+          simp [hal, this, hka]
+        by_cases hbl : b ∈ l
+        · have : x b = 0 := hx0 b (le_of_lt (hs.1 b hbl))
+          have hkb : k ≠ b := fun h => hkl (h ▸ hbl)
+          simp [hbl, this, hkb]
+        -- a, b ∉ l : each is k or below k
+        have hbelow : ∀ c, c ∉ l → c ≠ k → c < k := by
+          intro c hc hck
+          rcases lt_or_gt_of_ne hck with h | h
+          · exact h
+          · exact absurd (hup k (List.mem_cons_self ..) c h |> fun hm => (List.mem_cons.1 hm).resolve_left hck) hc
+        by_cases hak : a = k
+        · subst hak
+          by_cases hbk : b = a
+          · subst hbk
+            have hxk : x b = 0 := hx0 b (le_refl _)
+            simp only [List.mem_cons, true_or, if_true, hal, or_self, if_false, hxk]
+            rw [entry_self S'.1 hL']; ring
+          · have hblt := hbelow b hbl hbk
+            have hne : a ≠ b := fun h => hbk h.symm
+            have hxa : x a = 0 := hx0 a (le_refl _)
+            simp only [List.mem_cons, true_or, if_true, hal, hbl, or_self, if_false, hxa, hne]
+            rw [entry_of_lt S'.1 hL' a b hblt]
+            field_simp
+            ring
+        by_cases hbk : b = k
+        · subst hbk
+          have halt := hbelow a hal hak
+          have hne : b ≠ a := fun h => hak h.symm
+          have hxb : x b = 0 := hx0 b (le_refl _)
+          simp only [List.mem_cons, true_or, or_true, if_true, hal, hbl, or_self, if_false, hxb, hne]
+          rw [entry_symm S'.1 a b, entry_of_lt S'.1 hL' b a halt]
+          field_simp
+          ring
+        · have hka : k ≠ a := fun h => hak h.symm
+          have hkb : k ≠ b := fun h => hbk h.symm
+          simp only [List.mem_cons, hak, hbk, hal, hbl, or_self, if_false, hka, hkb]
+          have fe : entry S2.1 a b = entry S'.1 a b - x a * (1 / d) * x b :=
+            factorRow_entry k S'.1 S'.2 hL' hT' a b hak hbk
+          rw [fe]
+          field_simp
+          ring
+      linarith [key]
+
+
+theorem factorI_spec (M : SymCsr ℝ n) (hL : LowerOk M) (hT : TreeOk M) (hnz : ∀ r : Fin n, (factorI M).2[r] ≠ 0) :
+    SamePat (factorI M).1 M ∧ (∀ r : Fin n, (factorI M).2[r] = 1 / (factorI M).1[r].d ∧ (factorI M).1[r].d ≠ 0) ∧
+    ∀ a b : Fin n, ldlEntry (factorI M).1 (factorI M).2 a b = entry M a b := by
+  have hup : UpClosed (List.finRange n) := fun _ _ i _ => List.mem_finRange i
+  obtain ⟨hP, hD, hE⟩ := factor_aux M (Vector.replicate n zero) hL hT (List.finRange n) (List.pairwise_lt_finRange n) hup
+    (fun r _ => hnz r)
+  refine ⟨hP, fun r => hD r (List.mem_finRange r), ?_⟩
+  intro a b
+  have := hE a b
+  have hact : act (factorI M).1 (List.finRange n) a b = 0 := by simp [act]
+  unfold factorI at hact ⊢
+  rw [this, hact, add_zero, ← Fin.sum_univ_def]
+  unfold ldlEntry
+  apply Finset.sum_congr rfl
+  intro r _
+  obtain ⟨h1, h2⟩ := hD r (List.mem_finRange r)
+  rw [h1]
+  field_simp
 
 end MjProof.InertiaSparse
